@@ -55,6 +55,23 @@ def explicit(tier, seed):
                 i += 1
 
 
+def user_thread_cases(tier, seed):
+    """Two user threads share a context; one of them is slow between the statements of the hand-over to the checkpoint pipeline
+    (10 ms per statement), so its records fall into later API calls than those of the thread that started after it; one of those
+    calls stays in flight for 0.4 s and is then refused. No bookkeeping shortcut may tell the slow thread that its record is in."""
+    i = 0
+    for T, N in ((2, 2), (2, 3), (3, 2)):
+        for k in range(2, 9 if tier == "quick" else 14):
+            for slow in (0.004, 0.012):
+                if tier == "quick" and (k + T + N + int(slow * 1000)) % 2:
+                    continue
+                yield {"label": "user-threads-one-slow", "prog": {"body": [{"k": "step", "val": 0}, {"k": "uthreads", "threads": T, "n": N, "op": "step"}, {"k": "step", "val": "after"}]},
+                       "prog_seed": 23700 + i, "pattern": {"p": "plain"}, "max_inv": 1,
+                       "faults": [{"match": {"op": "checkpoint", "n": k}, "err": ERR, "when": "before", "delay_ms": 400}],
+                       "opts": {"hang_s": 4.0, "perturb": {"p": 0.0, "seed": i, "files": ["state.py"], "slow_thread": {"re": r"^ut-0$", "sleep": slow}}}}
+                i += 1
+
+
 def after_return_cases(tier, seed):
     """A branch abandoned by an early-completing map/parallel is still inside a step function when the handler returns, and goes on
     afterwards in the same (warm) process: whatever it does then, no durable call may hand it a result the backend never accepted."""
@@ -110,6 +127,7 @@ def explicit_all(tier, seed):
         yield dict(c, label="c03-" + c["label"])
     yield from after_return_cases(tier, seed)
     yield from repeated_record_cases(tier, seed)
+    yield from user_thread_cases(tier, seed)
 
 
 SPEC = Spec(
